@@ -533,6 +533,12 @@ func runRecipe(rc Recipe) (res Result) {
 	if _, _, ok := tableKind(rc.Kind); ok {
 		return runTable(rc)
 	}
+	if strings.HasPrefix(rc.Kind, "reg-") {
+		return runRegistry(rc)
+	}
+	if strings.HasPrefix(rc.Kind, "vcfg") {
+		return runVConfig(rc)
+	}
 	if strings.HasPrefix(rc.Kind, "cfg") {
 		return runConfig(rc)
 	}
